@@ -678,6 +678,24 @@ func (circuitSuite) Gen(r *rand.Rand, i int) Case {
 	nops := 1 + r.Intn(40)
 	id := 1
 	armed := 0
+	if closer == "hystrix" && pt == "" && r.Intn(6) == 0 {
+		// directed prelude: an override is switched on over an OPEN circuit whose sleep window has elapsed, a call
+		// arrives under it, the override is cleared, the next calls must find the underlying state untouched
+		flag := pick(r, "fo", "fo", "fc", "dis")
+		c.Ops = append(c.Ops, "open", fmt.Sprintf("tick %d", sleep+int64(r.Intn(2))), "fire 0")
+		armed = 1
+		plain := func() string {
+			id++
+			return fmt.Sprintf("exec ctx=bg run=%s radv=0 rcancel=0 fb=none fadv=0 fcancel=0 ans=0000", pick(r, "nil", "nil", fmt.Sprintf("e%d", id)))
+		}
+		c.Ops = append(c.Ops, fmt.Sprintf("setcfg %s=1", flag), plain())
+		if r.Intn(2) == 0 {
+			c.Ops = append(c.Ops, plain())
+		}
+		c.Ops = append(c.Ops, fmt.Sprintf("setcfg %s=0", flag), plain(), plain())
+		tag("override-over-elapsed-window")
+		armed += 2
+	}
 	for j := 0; j < nops; j++ {
 		x := r.Intn(100)
 		if pt != "" {
